@@ -94,7 +94,9 @@ impl Plugin for ServerEventPlugin {
                 PreUpdate,
                 (
                     receive.run_if(server_running),
-                    trigger.run_if(server_or_singleplayer),
+                    // Always runs: events re-emitted locally in the previous frame
+                    // should be triggered even if the client started connecting since then.
+                    trigger,
                 )
                     .chain()
                     .in_set(ServerSet::Receive),
